@@ -13,12 +13,15 @@ class Unit:
                  harness=None, setup='', args=None, post='', backend='cadical', timeout=600, mem_gb=12,
                  rec=False, cbmc_flags=(), props=(), note='', extra_c='', expect_fail=(), opaque=None,
                  split=False, tier='quick', unwindset=(), defines=(), extern_records=(), bounded=None,
-                 stubs=(), variants=None, pre_c='', object_bits=None, checks=None, bind='', ghost=(), bind_assigns=(), gen_stubs=None, lifted_loops=None, auto_inline=()):
+                 stubs=(), variants=None, pre_c='', object_bits=None, checks=None, weight=1, bind='', ghost=(), bind_assigns=(), gen_stubs=None, lifted_loops=None, auto_inline=(), lifted_target=None, lifted_stub=None):
+        self.lifted_target = lifted_target   # regex: verify this lambda-lifted helper of fn instead of fn itself
+        self.lifted_stub = lifted_stub       # callable(ast, L, tf, lifted) -> {cname: C body}: lifted helpers replaced by executable contracts
         self.auto_inline = list(auto_inline)   # regexes: callees lowered and inlined automatically (constructors, reset, trivial helpers)
         self.lifted_loops = lifted_loops   # callable(ast, L, tf, lifted) -> {cname: {loop: text}} for lambda-lifted helpers
         self.gen_stubs = gen_stubs or []   # [(regex on callee C name, body template with $PROTO args)] executable assumed contracts
         self.ghost = list(ghost)    # [(ctype, name, entry expression over $this/$k)] -> per-function ghost entry bindings '@name'
         self.bind_assigns = list(bind_assigns)
+        self.weight = weight
         self.bind = bind            # ghost assignments emitted before each contract-replaced call of this function
         self.id = id
         self.fn = fn                  # ('Class::name', signature or None)
@@ -254,6 +257,14 @@ def build_c(ast, unit, registry):
     L = cdns2c.Lower(ast, opaque=opaque, extern_records=unit.extern_records)
     target_def = find_one(ast, unit.fn)
     tf = L.lower_function(target_def)
+    parent_tf = tf
+    if unit.lifted_target:
+        cands = [lf for lf in L.lifted if re.match(unit.lifted_target + '$', lf.cname)]
+        if len(cands) != 1:
+            raise LowerError('lifted target %s: %d candidates among %s' % (unit.lifted_target, len(cands), [lf.cname for lf in L.lifted]))
+        tf = cands[0]
+        # keep only the helpers this instance calls (its callback)
+        L.lifted = [lf for lf in L.lifted if lf.cname in tf.calls]
     callee_ghosts = []     # names assigned by bindings before replaced calls
     fns = None
     have = {tf.cname}
@@ -266,7 +277,7 @@ def build_c(ast, unit, registry):
         have.add(f.cname)
         inl_fns.append((f, '', {}))
     # transitive automatic inlining of constructors / reset helpers
-    work = [tf] + [f for f, _, _ in inl_fns]
+    work = [tf] + [f for f, _, _ in inl_fns] + list(L.lifted)
     while work:
         cur_f = work.pop()
         for cn in list(cur_f.calls):
@@ -310,7 +321,14 @@ def build_c(ast, unit, registry):
     uloops = unit.loops(ast, L, tf) if callable(unit.loops) else unit.loops
     tloops = {k: subst(expand_ghost(v, unit, tf.cname), tf).replace('@BINDS', binds_list) for k, v in uloops.items()}
     lifted = list(L.lifted)
-    ll = unit.lifted_loops(ast, L, tf, lifted) if unit.lifted_loops else {}
+    ll = unit.lifted_loops(ast, L, tf, lifted) if (unit.lifted_loops and not unit.lifted_target) else {}
+    if unit.lifted_stub:
+        bodies = unit.lifted_stub(ast, L, tf, lifted)
+        for lf in lifted:
+            if lf.cname in bodies:
+                lf.body = bodies[lf.cname]
+                lf.calls = []
+                ll.pop(lf.cname, None)
     for lf in lifted:
         have.add(lf.cname)
     fns = [(tf, tcontract, tloops)] + inl_fns + [(lf, '', ll.get(lf.cname, {})) for lf in lifted]
@@ -446,7 +464,38 @@ def _limits(mem_gb):
     return f
 
 
+import threading
+_SLOTS = int(os.environ.get('VERIF_SLOTS', '14'))
+_slot_sem = threading.BoundedSemaphore(_SLOTS)
+_slot_lock = threading.Lock()
+
+
+class _Slots:
+    """at most VERIF_SLOTS units of weight in flight: memory-hungry queries (decoder window, big readers) weigh more"""
+    def __init__(self, n):
+        self.n = max(1, min(n, _SLOTS))
+
+    def __enter__(self):
+        with _slot_lock:      # acquire all-or-nothing in order, so two heavy queries cannot starve each other
+            for _ in range(self.n):
+                _slot_sem.acquire()
+
+    def __exit__(self, *a):
+        for _ in range(self.n):
+            _slot_sem.release()
+
+
 def run_cbmc(unit, gb, extra, timeout, mem_gb):
+    with _Slots(getattr(unit, 'weight', 1)):
+        r = _run_cbmc(unit, gb, extra, timeout, mem_gb)
+    if r[0] != 0 and r[0] != 10 and not r[1].strip().endswith(']'):
+        # killed (memory) or truncated output: one retry with the machine to itself
+        with _Slots(_SLOTS):
+            r = _run_cbmc(unit, gb, extra, timeout, max(mem_gb, 40))
+    return r
+
+
+def _run_cbmc(unit, gb, extra, timeout, mem_gb):
     """run cbmc; on 'too many addressed objects' retry with more object bits (sticky for the unit)"""
     while True:
         rc, so, se, dt = run(cbmc_cmd(unit, gb, extra), timeout, mem_gb)
